@@ -14,8 +14,8 @@ def run(ctx):
                 "pipeline breaks; non-trivial = string containing a table character / text with at least two tokens")
     # ---- S->I: Tantivy adapter, enumerated
     consts = {"TextAlpha": {97, 49, 12354, 28450, 128512, 13, 10, 45, 65293} if not q else {97, 49, 12354, 128512, 10, 45, 65293},
-              "MaxText": 4 if not q else 3, "WsLetters": "{" + ", ".join('"%s"' % c for c in "DRHTKOG") + "}",
-              "MaxWs": 2 if not q else 1, "ModelIds": {1, 2, 3, 4}}
+              "MaxText": 4 if not q else 3, "WsLetters": "{" + ", ".join('"%s"' % c for c in ("DRHTKOG" if not q else "DRHOG")) + "}",
+              "MaxWs": 2, "ModelIds": {1, 2, 3, 4}}
     cfg = vlib.cfg_text(constants=consts, invariants=["Laws", "Emit"])
     res = vlib.tlc("C16-gen-tantivy", "Gen_Tantivy", cfg, timeout=3000)
     if res["violated"]:
